@@ -48,6 +48,11 @@ user.name = "Sim User"
 user.email = "sim.user@example.com"
 operation.username = "sim"
 operation.hostname = "sim.example.com"
+# the harness's own load_at_head reconciles divergent operation heads (after
+# --at-op commands); its reconcile operation must not carry the wall clock
+debug.randomness-seed = 4242
+debug.commit-timestamp = "2001-02-03T04:05:06+07:00"
+debug.operation-timestamp = "2001-02-03T04:05:06+07:00"
 "#;
     let mut config = jj_lib::config::StackedConfig::with_defaults();
     config.add_layer(jj_lib::config::ConfigLayer::parse(jj_lib::config::ConfigSource::User, text).unwrap());
@@ -583,6 +588,25 @@ impl Engine for CliSim {
             // --- run
             let (ok, msg) = jj(&args, &cwd);
             let first_line = msg.lines().find(|l| !l.trim().is_empty()).unwrap_or("").to_string();
+            // a panic message of the binary carries its thread id: not part of the log
+            let first_line = if first_line.contains("panicked at") {
+                out.probe("jj_binary_panicked", 1);
+                let mut t = String::new();
+                let mut in_paren_digits = false;
+                for (i, c) in first_line.char_indices() {
+                    if c == '(' && first_line[i + 1..].chars().next().is_some_and(|d| d.is_ascii_digit()) {
+                        in_paren_digits = true;
+                        t.push_str("(tid");
+                    } else if in_paren_digits && c.is_ascii_digit() {
+                    } else {
+                        in_paren_digits = false;
+                        t.push(c);
+                    }
+                }
+                t
+            } else {
+                first_line
+            };
             note!("jj[{ws_name}] {} -> {} | {}", args.join(" "), if ok { "ok" } else { "failed" }, &first_line[..first_line.len().min(120)]);
             let recovered_stale = msg.contains("stale");
             if recovered_stale {
